@@ -155,14 +155,22 @@ def handle (inp out : Sexp) : CaseResult :=
     | none => .bad s!"undecodable output {out}"
     | some o =>
       let sp := spelling.toList
-      let pred := predict kind sp
+      -- `DELAY 0 +1`: the qubit/duration back-tracking of parse_delay re-reads the text as the duration
+      -- `0+1` on no qubits, so an operand-parser error does not predict a program error in this position
+      -- and `DELAY 0 2i` is read as qubits 0, 2 and the duration `i` (the identifier `i` is first taken as a
+      -- qubit variable and then given back): imaginary spellings are not predicted there either
       let sg := Spec.classifySigned sp
+      let delayAmbiguous := name == "delaynoframe" &&
+        (match sg with | some s => s.plus || s.imag | none => true)
+      let pred := match predict kind sp with
+        | some .err => if name == "delaynoframe" then none else some .err
+        | p => if delayAmbiguous then none else p
       let std := parseHexBits stdA
       let agree := match pred with
         | some p => p == o
         | none => true
       let specOk := match sg with
-        | some s => specCheck kind s std o
+        | some s => specCheck kind s std o || (delayAmbiguous && o == .other)
         | none => true
       { agree := agree, specOk := specOk, nontrivial := sg.isSome && o != .other,
         tags := [s!"pos-{name}", s!"kind-{kind}", outTag o,
